@@ -490,7 +490,7 @@ def run_encode(res):
                 return
     # operands beyond 12 bits (constructor or literal): however the address is reduced, the word stays a 16-bit
     # word whose top four bits are the opcode
-    for m in MNEMONICS[:8]:
+    for m in MNEMONICS:  # (the classes without an operand accept and keep address bits, too)
         cls = instruction_map[m]
         for a in (4096, 4097, 4101, 0x1003, 0x1FFF, 0x8000, 0xFFFF, 0x10000, 0x12345, 70000):
             i = cls(address=a)
